@@ -705,6 +705,70 @@ def desugar_exitstack(fn: ast.FunctionDef) -> ast.FunctionDef:
         return res
 
     new.body = rec(new.body)
+
+    # `if c: cm = A  else: cm = B` directly followed by `with cm as f: BODY` (cm bound nowhere else): the with goes into both branches
+    def distribute(stmts):
+        out = []
+        i = 0
+        while i < len(stmts):
+            st = stmts[i]
+            nxt = stmts[i + 1] if i + 1 < len(stmts) else None
+            if isinstance(st, ast.If) and isinstance(nxt, ast.With) and len(nxt.items) == 1 and isinstance(nxt.items[0].context_expr, ast.Name) \
+                    and len(st.body) >= 1 and len(st.orelse) >= 1:
+                cm = nxt.items[0].context_expr.id
+                last_a, last_b = st.body[-1], st.orelse[-1]
+                stores = [n for n in ast.walk(new) if isinstance(n, ast.Name) and n.id == cm and isinstance(n.ctx, ast.Store)]
+                loads = [n for n in ast.walk(new) if isinstance(n, ast.Name) and n.id == cm and isinstance(n.ctx, ast.Load)]
+                if all(isinstance(x, ast.Assign) and len(x.targets) == 1 and isinstance(x.targets[0], ast.Name) and x.targets[0].id == cm for x in (last_a, last_b)) \
+                        and len(stores) == 2 and len(loads) == 1:
+                    def arm(prefix, value):
+                        w = ast.With(items=[ast.withitem(context_expr=value, optional_vars=copy.deepcopy(nxt.items[0].optional_vars))], body=copy.deepcopy(nxt.body))
+                        return prefix + [ast.copy_location(w, nxt)]
+                    new_if = ast.If(test=st.test, body=arm(st.body[:-1], last_a.value), orelse=arm(st.orelse[:-1], last_b.value))
+                    out.append(ast.copy_location(new_if, st))
+                    i += 2
+                    continue
+            for fld in ("body", "orelse", "finalbody"):
+                if hasattr(st, fld) and isinstance(getattr(st, fld), list) and getattr(st, fld) and isinstance(getattr(st, fld)[0], ast.stmt) \
+                        and not isinstance(st, (ast.FunctionDef, ast.ClassDef)):
+                    setattr(st, fld, distribute(getattr(st, fld)))
+            out.append(st)
+            i += 1
+        return out
+    new.body = distribute(new.body)
+
+    # `with closing(E) as f: BODY`  is  f = E; try: BODY finally: f.close();     `with nullcontext(E) as f: BODY`  is  f = E; BODY
+    def plain_cms(stmts):
+        out = []
+        for st in stmts:
+            for fld in ("body", "orelse", "finalbody"):
+                if hasattr(st, fld) and isinstance(getattr(st, fld), list) and getattr(st, fld) and isinstance(getattr(st, fld)[0], ast.stmt) \
+                        and not isinstance(st, (ast.FunctionDef, ast.ClassDef)):
+                    setattr(st, fld, plain_cms(getattr(st, fld)))
+            if isinstance(st, ast.Try):
+                for h in st.handlers:
+                    h.body = plain_cms(h.body)
+            if isinstance(st, ast.With) and len(st.items) == 1 and isinstance(st.items[0].context_expr, ast.Call) \
+                    and norm_name(st.items[0].context_expr.func) in ("closing", "nullcontext") and len(st.items[0].context_expr.args) == 1 \
+                    and not st.items[0].context_expr.keywords:
+                kind = norm_name(st.items[0].context_expr.func)
+                inner = st.items[0].context_expr.args[0]
+                tgt = st.items[0].optional_vars
+                if tgt is None:
+                    counter[0] += 1
+                    tgt = ast.Name(id=f"__cm{counter[0]}", ctx=ast.Store())
+                if isinstance(tgt, ast.Name):
+                    bind = ast.copy_location(ast.Assign(targets=[ast.Name(id=tgt.id, ctx=ast.Store())], value=inner), st)
+                    out.append(bind)
+                    if kind == "closing":
+                        out.append(ast.copy_location(ast.Try(body=st.body, handlers=[], orelse=[],
+                                                             finalbody=[close_stmt(ast.Name(id=tgt.id, ctx=ast.Load()))]), st))
+                    else:
+                        out.extend(st.body)
+                    continue
+            out.append(st)
+        return out
+    new.body = plain_cms(new.body)
     ast.fix_missing_locations(new)
     return new
 
